@@ -487,13 +487,13 @@ def r_rt_loop(e, R):
     if outer is not None:
         fin = outer.finalbody
         calls = [c for s in fin for c in ast.walk(s) if isinstance(c, ast.Call) and isinstance(c.func, ast.Name)]
-        helpers = {s.name: s for s in fin if isinstance(s, ast.FunctionDef)}
+        helpers = _sweep_helpers(e, fin, roles[4])
         sweeps = [c for c in calls if c.func.id in helpers]
         loop_sw = [c for c in sweeps if any(isinstance(pp, ast.For) for pp in _parents(e, c, outer))]
         last_sw = [c for c in sweeps if c not in loop_sw]
         okf = False
         for c in last_sw:
-            if len(c.args) == 2 and isinstance(c.args[1], ast.Constant) and c.args[1].value == "folder":
+            if len(c.args) >= 2 and isinstance(c.args[1], ast.Constant) and c.args[1].value == "folder":
                 okf = True
         oks = False
         for c in loop_sw:
@@ -560,6 +560,20 @@ BROAD = {None, "Exception", "BaseException"}
 SWEEP_TOTAL_CALLS = {"len", "items", "keys", "values", "list", "sorted", "tuple", "get", "copy"}   # total on builtin dicts / lists (str keys)
 
 
+def _sweep_helpers(e, fin, cleanup):
+    """The routines the sweep delegates to: functions defined in the finally body itself, or module-level functions of the tracker
+    module called from it, that hand names to `<cleanup table>[type](name)`."""
+    helpers = {s.name: s for s in fin if isinstance(s, ast.FunctionDef)}
+    for s in fin:
+        for c in ast.walk(s):
+            if isinstance(c, ast.Call) and isinstance(c.func, ast.Name) and c.func.id not in helpers:
+                mf = e.prog.funcs.get(f"{RT}:{c.func.id}")
+                if mf is not None and mf.kind == "def" and any(isinstance(x, ast.Call) and isinstance(x.func, ast.Subscript) and isinstance(x.func.value, ast.Name)
+                                                               and x.func.value.id == cleanup for x in ast.walk(mf.node)):
+                    helpers[c.func.id] = mf.node
+    return helpers
+
+
 def _sweep_region(e):
     """(func, outer try, finally statements, helper defs) of the tracker's end-of-life sweep."""
     f, loop, tr, _, roles = _loop_parts(e)
@@ -571,7 +585,7 @@ def _sweep_region(e):
         p = parent(e, p)
     if outer is None:
         return f, None, [], {}, roles
-    helpers = {s.name: s for s in outer.finalbody if isinstance(s, ast.FunctionDef)}
+    helpers = _sweep_helpers(e, outer.finalbody, roles[4])
     return f, outer, outer.finalbody, helpers, roles
 
 
@@ -680,7 +694,7 @@ def r_rt_sweep(e, R):
                 if all(bool(ev(t.ast, env)) == (lab == "T") for t, lab in ctl):
                     swept.setdefault(k, []).append("loop")
         else:
-            if not (len(c.args) == 2 and isinstance(c.args[1], ast.Constant)):
+            if not (len(c.args) >= 2 and isinstance(c.args[1], ast.Constant)):
                 raise AnalysisError("tracker sweep: helper call outside the loop without a literal type")
             k = c.args[1].value
             sub = c.args[0]
